@@ -32,9 +32,7 @@ RULE = ('cwrs: for every (N,K) of the static mode\'s pulse cache (23 band sizes 
         'A case is one protocol line; a block line stands for up to 4096 (cwrs) / 32768 (laplace) compared evaluations; '
         'distinct = (op, outcome kind) classes')
 NOT_COVERED = [
-    'CELT frame round trip: the decoder side is C03\'s celtHeader followed by C03\'s afterAlloc on the identical allocation; that C03\'s '
-    'celtFrame (which feeds computeAllocation from the range decoder call by call, allocDrive) reaches the same allocation is not yet '
-    'linked formally (alloc_enc_dec_agree gives the agreement for the complete value list); the PVQ leaf decision is the codeword index '
+    'CELT frame round trip: silent frames (header only); the PVQ leaf decision is the codeword index '
     '(bijective with alg_quant\'s pulse vector by cwrsi_icwrs / icwrs_cwrsi), theta_rdo\'s discarded trial encodings are not modelled; '
     'the FUZZING build, custom modes, '
     'lfe streams on real frames (lfe is modelled and covered by the direct coarse-energy tie only), the degenerate hybrid case in which the '
@@ -102,7 +100,8 @@ LEVEL_TEXT = ('full proof: U/V recurrence and symmetry; cwrsi and icwrs (transcr
               'is shown to take the same branch on both sides; silent frames separately; the one branch where the encoder\'s kept coarse '
               'energy differs from the decoded one is pinned down; the rest of the CELT frame (fine energy, quant_all_bands with splits, '
               'stereo, all theta PDFs, PVQ indices, anti-collapse, finalise): the encoder model round-trips through C03\'s band decoder '
-              'model with equal final range, ec_tell, ec_tell_frac — the CELT frame round trip')
+              'model with equal final range, ec_tell, ec_tell_frac — the CELT frame round trip, stated against C03\'s complete celtFrame '
+              '(its call-by-call driving of the allocation is linked through an oracle-prefix determinism lemma for computeAllocation)')
 LEVEL_NOTE = ('trusted: Lean kernel; the extractors tools/extract/CeltTables.c, SilkIcdf.c (tables go through the C compiler); the '
               'transcription of cwrs.c/laplace.c into Lean, tied by exact differential runs on the real code under ASan/UBSan with only '
               'the range-coder entry points stubbed; ftb values and table slices per call site (source scan + the tables captured at the '
